@@ -54,7 +54,7 @@ type world struct {
 	proxy   *neotest.Contract
 	proxyID int32
 	sys     map[string]sysMethod // system call name -> proxy method
-	noArgs  []string             // linked system calls the proxy has no dummy arguments for
+	probes  map[string][]string  // system call unknown to the harness -> proxy methods trying every known argument template
 	relays  []relayInfo
 	other   util.Uint160 // an ordinary account without funds
 	genesis util.Uint256
@@ -179,7 +179,7 @@ func sysArgs(pub []byte) map[string]struct {
 }
 
 // buildProxy assembles the proxy. tokenTarget is the contract `viaToken` calls through CALLT.
-func buildProxy(sender util.Uint160, pub []byte, tokenTarget util.Uint160, tokenFlags callflag.CallFlag) (*neotest.Contract, map[string]sysMethod, []string) {
+func buildProxy(sender util.Uint160, pub []byte, tokenTarget util.Uint160, tokenFlags callflag.CallFlag) (*neotest.Contract, map[string]sysMethod, map[string][]string) {
 	config.Version = "verif"
 	w := io.NewBufBinWriter()
 	bw := w.BinWriter
@@ -195,11 +195,24 @@ func buildProxy(sender util.Uint160, pub []byte, tokenTarget util.Uint160, token
 	m.ABI.Events = append(m.ABI.Events, manifest.Event{Name: "E", Parameters: []manifest.Parameter{}})
 	args := sysArgs(pub)
 	sys := map[string]sysMethod{}
-	var noArgs []string
+	probes := map[string][]string{}
+	var templates []string
+	for n := range args {
+		templates = append(templates, n)
+	}
+	sort.Strings(templates)
 	for i, f := range linkedInterops() {
 		a, ok := args[f.Name]
 		if !ok {
-			noArgs = append(noArgs, f.Name)
+			// a system call this harness does not know: try it on the stack prepared for every known one
+			for j, tn := range templates {
+				name := fmt.Sprintf("u%d_%d", i, j)
+				add(name, anyT, false)
+				args[tn].push(bw)
+				emit.Syscall(bw, f.Name)
+				emit.Opcodes(bw, opcode.DEPTH, opcode.PACK, opcode.RET)
+				probes[f.Name] = append(probes[f.Name], name)
+			}
 			continue
 		}
 		name := fmt.Sprintf("s%d", i)
@@ -259,8 +272,7 @@ func buildProxy(sender util.Uint160, pub []byte, tokenTarget util.Uint160, token
 	}
 	ne.Tokens = []nef.MethodToken{{Hash: tokenTarget, Method: "relay", ParamCount: 1, HasReturn: true, CallFlag: tokenFlags}}
 	ne.Checksum = ne.CalculateChecksum()
-	sort.Strings(noArgs)
-	return &neotest.Contract{Hash: state.CreateContractHash(sender, ne.Checksum, m.Name), NEF: ne, Manifest: m}, sys, noArgs
+	return &neotest.Contract{Hash: state.CreateContractHash(sender, ne.Checksum, m.Name), NEF: ne, Manifest: m}, sys, probes
 }
 
 // buildRelay assembles relay number n with the given groups and permissions (relays maps abstract ids of
@@ -386,7 +398,7 @@ func newWorld(hf int) *world {
 		w.e.DeployContract(w.tb, plan[i].c, nil)
 	}
 	w.relays = plan
-	w.proxy, w.sys, w.noArgs = buildProxy(w.acc, w.pub.Bytes(), ids[1], callflag.All)
+	w.proxy, w.sys, w.probes = buildProxy(w.acc, w.pub.Bytes(), ids[1], callflag.All)
 	w.e.DeployContract(w.tb, w.proxy, nil)
 	if cs := bc.GetContractState(w.proxy.Hash); cs != nil {
 		w.proxyID = cs.ID
